@@ -223,6 +223,44 @@ func joinOrder(ctx *Ctx, delays []string) {
 	}
 }
 
+// inputs arriving one by one while all slots are busy, then free again: the outputs still leave in arrival order
+// (gaps in ms before each input; durations in ms of each input's task; `max` slots)
+func pacedOrder(ctx *Ctx, max int, gaps, durs []int) {
+	paths, vals := []string{}, []string{}
+	pre := map[string]string{}
+	var cs strings.Builder
+	cs.WriteString("case {i:in|basename} in ")
+	for i := range gaps {
+		p := fmt.Sprintf("q%02d.txt", i)
+		paths = append(paths, p)
+		vals = append(vals, fmt.Sprint(gaps[i]))
+		pre[p] = p + "\n"
+		cs.WriteString(fmt.Sprintf("q%02d*) sleep %d.%03d;; ", i, durs[i]/1000, durs[i]%1000))
+	}
+	cs.WriteString("esac")
+	d := &Desc{Name: "c08paced", Max: max, Nodes: []Node{{Name: "src", Kind: "pacedsource", Paths: paths, Values: vals},
+		{Name: "work", Kind: "proc", Cmd: "( " + cs.String() + " ; cat {i:in} > {o:out} )", Outs: map[string]string{"out": "{i:in}.w"}},
+		{Name: "rec", Kind: "recorder"}},
+		Edges: []Edge{{From: "src.out", To: "work.in"}, {From: "work.out", To: "rec.in"}}}
+	rr := RunWorkflow(d, RunOpts{Pre: pre, Timeout: 30e9})
+	defer os.RemoveAll(rr.Dir)
+	w := map[string]interface{}{"max": max, "gaps": gaps, "durations": durs}
+	ctx.Res.Eval(fmt.Sprintf("paced-order max=%d gaps=%v durs=%v", max, gaps, durs), true, w)
+	ctx.Res.Count("paced-arrivals,busy-slots")
+	if rr.Exit != 0 {
+		ctx.Res.Disagree(Violation{What: fmt.Sprintf("paced order workflow exited %d: %s", rr.Exit, tail(rr.Stderr)), Witness: w})
+		return
+	}
+	got := readRec(rr.Dir, "rec")
+	want := []string{}
+	for _, p := range paths {
+		want = append(want, p+".w")
+	}
+	if strings.Join(got, ",") != strings.Join(want, ",") {
+		ctx.Res.Violate(Violation{What: fmt.Sprintf("outputs left in the order %v, the inputs arrived in the order %v (slots %d, gaps %v ms, task durations %v ms)", got, want, max, gaps, durs), Class: "c08.order", Witness: w})
+	}
+}
+
 func checkC08(ctx *Ctx) {
 	ctx.Res.Rule = "chains of 1-3 processes over 2-8 items whose per-item command durations are random (later items usually finish long before earlier ones; in a third of the cases the outputs of some items exist before the run, so that their tasks are skipped), maxConcurrentTasks 1-8, SCIPIPE_BUFSIZE 1-3 or 128, optional fan-in of a second upstream into the last port; recorder components after every process; non-trivial = some later item is faster than an earlier one and more than one slot; distinct by case. Checks: recorded order equals arrival order on every out-port, per-sender order through fan-in, counts, and per process goroutine the hook trace's dequeue sequence is a prefix of its accept sequence."
 	r := NewRng(ctx.Seed)
@@ -248,6 +286,7 @@ func checkC08(ctx *Ctx) {
 			runC08(ctx, cases[i])
 		}
 	})
+	pacedOrder(ctx, 2, []int{0, 250, 250, 300}, []int{1500, 400, 50, 50})
 	joinOrder(ctx, []string{"400", "200", "0"})
 	joinOrder(ctx, []string{"0", "300"})
 	streamOrder(ctx, 4, []int{90, 60, 30, 1}, 0)
